@@ -595,7 +595,7 @@ def verify_contract(loader, registry, con, dim_override=None, observed=False, in
 
     rep = FunctionReport(con.target, con.props, con.level)
     t_start = time.time()
-    degraded = [False]
+    degraded = [False, 0]   # [a counter-model was found, patience retries used]
     for case in (con.cases if cases is None else cases):
         worklist = [[]]
         npaths = 0
